@@ -138,10 +138,18 @@ fn num_result(r: f64) -> Ev {
 
 /// index-like argument: Ok(Some(n)) usable, Ok(None) = not a non-negative integer (nothing), Err = unspecified
 fn as_index(v: &Option<RVal>) -> Result<Option<usize>, ()> {
+    as_index_of(v, false)
+}
+
+/// `wide`: the number only counts or addresses elements that exist (N of take / take_last /
+/// head / tail, the index of get, the start of sub), so any non-negative 64-bit integer is
+/// meaningful - "N >= size gives the whole collection". Not wide: the number decides how much
+/// is built (range N, the length of sub), where huge values are resource exhaustion.
+fn as_index_of(v: &Option<RVal>, wide: bool) -> Result<Option<usize>, ()> {
     match v {
         Some(RVal::Int(i)) => {
-            if *i >= 0 && *i <= 1_000_000_000 {
-                Ok(Some(*i as usize))
+            if *i >= 0 && (*i <= 1_000_000_000 || (wide && *i < (1i128 << 64))) {
+                Ok(Some((*i).min(usize::MAX as i128) as usize))
             } else if *i < 0 {
                 Ok(None)
             } else {
@@ -449,7 +457,7 @@ impl Evaluator {
                 let k = get!(1);
                 match (c, k) {
                     (Some(RVal::Obj(o)), Some(RVal::Str(k))) => Val(o.iter().find(|m| m.0 == k).map(|m| m.1.clone())),
-                    (Some(RVal::Arr(a)), k) => match as_index(&k) {
+                    (Some(RVal::Arr(a)), k) => match as_index_of(&k, true) {
                         Ok(Some(i)) => Val(a.get(i).cloned()),
                         Ok(None) => nothing(),
                         Err(()) => U,
@@ -473,7 +481,7 @@ impl Evaluator {
                 let c = get!(0);
                 let n = get!(1);
                 let string_only = f == "head" || f == "tail";
-                let n = match as_index(&n) {
+                let n = match as_index_of(&n, true) {
                     Ok(Some(n)) => n,
                     Ok(None) => return nothing(),
                     Err(()) => return U,
@@ -521,7 +529,7 @@ impl Evaluator {
                 let c = get!(0);
                 let s = get!(1);
                 let l = get!(2);
-                let (s, l) = match (as_index(&s), as_index(&l)) {
+                let (s, l) = match (as_index_of(&s, true), as_index(&l)) {
                     (Ok(Some(s)), Ok(Some(l))) => (s, l),
                     (Err(()), _) | (_, Err(())) => return U,
                     _ => return nothing(),
